@@ -386,6 +386,17 @@ def prof_canon(rng, n, tier):
             for k in high:
                 target[k] = gen_val(rng, h.vt)
             h.tags.add("jump")
+        lone_sc = (not jump) and h.kind in (0, 1) and h.bf <= 4 and rng.random() < 0.25
+        high = high if jump else []
+        if lone_sc:
+            # only keys of layer 0, more than bf^2 of them: the canonical tree has height 0
+            target = {}
+            want = h.bf ** 2 + rng.randint(1, 8)
+            v = 1
+            while len(target) < want:
+                if v % h.bf:
+                    target[("i:%d" if h.kind == 0 else "u:%d") % v] = gen_val(rng, h.vt)
+                v += 1
         keys = sorted(target, key=key_sort)
         routes = rng.randint(2, 4)
         for rt in range(routes):
@@ -424,6 +435,28 @@ def prof_canon(rng, n, tier):
                     h.ins(t, k, target[k])
             h.observe(t)
             h.mkroot(t)
+        if jump or lone_sc:
+            # one more route: a lone key several layers up, smaller or larger than everything else, is added, the tree is
+            # persisted (and perhaps reloaded), and the lone key is deleted again: every key-less level it leaves behind
+            # has to go, also when the levels below are held by name only
+            pre = "i:%d" if h.kind == 0 else "u:%d"
+            low = [k for k in keys if k not in high]
+            t = h.new()
+            for k in low:
+                h.ins(t, k, target[k])
+            for k in high:
+                h.ins(t, k, target[k])
+            top = max(int(k.split(":")[1]) for k in keys)
+            lone = pre % (h.bf ** rng.randint(4, 6) * (top // h.bf ** 4 + 1)) if (h.kind == 1 or rng.random() < 0.6) else "i:%d" % -(h.bf ** rng.randint(4, 6))
+            if lone not in target:
+                h.ins(t, lone, gen_val(rng, h.vt))
+                r = h.mkroot(t)
+                if rng.random() < 0.6:
+                    t = h.load(r)
+                h.dele(t, lone)
+                h.ops.append("height %d" % t)
+                h.observe(t); h.mkroot(t)
+                h.tags.add("lone-top-key")
         # emptied vs never populated
         if not target:
             t = h.new(); h.ins(t); h.drain(t); h.mkroot(t); h.tags.add("emptied")
